@@ -94,7 +94,10 @@ def check_cfg(ctx, fx, cfg):
         n_sites += 1
         rs = roots(gb, t_["args"][1])
         kinds = {("default" if r.kind == "call:core::default::Default::default" else r.kind) for r in rs}
-        is_default_api = g["def"].split("::{")[0].endswith(("::spawn_owning", "::from_registry_and_spawn")) and "DefaultSpawnable" in g["def"] or "from_registry_and_spawn" in g["def"]
+        # an entry point that is given no actor value (no parameter of the actor type) can only run a fresh default one
+        rootf = fx.fn(g.get("root", g["def"])) or g
+        actor_tys = ("A", "Self", "&mut A", "&mut Self")
+        is_default_api = not any((i.get("ty") if isinstance(i, dict) else i) in actor_tys for i in (rootf.get("inputs") or []))
         ok = bool(rs) and (kinds <= {"arg", "upvar"} or (is_default_api and kinds == {"default"}))
         ctx.require(ok, "R17.4", "actor-handed-over:%s@%s" % (g["def"], cfg), "the actor value the loop runs is not the one given to this spawn entry point (roots %s)" % sorted(map(str, rs)), fn=g["def"], site=t_["l"])
     ctx.floor("R17.4", "callers of the loop constructors (%s)" % cfg, n_sites, 8)
@@ -141,7 +144,8 @@ def check_join(ctx, fx, cfg, RULE):
         if not ctx.require(jc is not None, RULE, inst + ":join-closure", "join closure not found", fn=f["def"], site=f["loc"]):
             continue
         jb = ctx.body(fx, jc)
-        cos = [fx.fn(st["r"]["def"]) for _bi, _si, st in agg_sites(jb, ak="coroutine")]
+        # the future is built by the closure itself or by a named function it forwards to (`move || join_task(&handle)`)
+        cos = [fx.fn(st["r"]["def"]) for g_ in graph.with_forwarded(fx, jc) for _bi, _si, st in agg_sites(ctx.body(fx, g_), ak="coroutine")]
         if not ctx.require(len(cos) == 1, RULE, inst + ":join-future", "the join closure must build exactly one future", fn=jc["def"], site=jc["loc"]):
             continue
         co = cos[0]
